@@ -23,6 +23,7 @@ import (
 	"errors"
 	"io"
 	"net/url"
+	"os"
 	"strings"
 	"time"
 
@@ -125,6 +126,25 @@ type bindTarget struct {
 }
 
 func rd(s string) io.Reader { return strings.NewReader(s) }
+
+// errCloser is a body stream that reads fine but whose Close always fails (what an *os.File, pipe or connection
+// reports when the handler has closed it already): closing is part of every reset path.
+type errCloser struct{ io.Reader }
+
+func (errCloser) Close() error { return errors.New("c09: close failed") }
+
+func rdBadClose(s string) io.Reader { return errCloser{strings.NewReader(s)} }
+
+// closedFile opens the small file and closes it at once, as `defer f.Close()` in a handler does before the
+// server writes the response: reads and Close both fail from then on.
+func closedFile(e *env) io.Reader {
+	f, err := os.Open(e.files + "/small.txt")
+	if err != nil {
+		panic(err)
+	}
+	f.Close()
+	return f
+}
 
 func richRequest() *protocol.Request {
 	r := &protocol.Request{}
@@ -254,6 +274,8 @@ func init() {
 	C("Set", "", func(e *env) { e.ctx.Set("c09", "v") })
 	C("SetBodyStream", "", func(e *env) { e.ctx.SetBodyStream(rd("c09-ctx-stream"), 14) })
 	C("SetBodyStream", "chunked", func(e *env) { e.ctx.SetBodyStream(rd("c09-ctx-stream"), -1) })
+	C("SetBodyStream", "closeErr", func(e *env) { e.ctx.SetBodyStream(rdBadClose("c09-ctx-stream"), 14) })
+	C("SetBodyStream", "closedFile", func(e *env) { e.ctx.SetBodyStream(closedFile(e), -1) })
 	C("SetBodyString", "", func(e *env) { e.ctx.SetBodyString("c09-ctx-body") })
 	C("SetClientIPFunc", "", func(e *env) { e.ctx.SetClientIPFunc(func(*app.RequestContext) string { return "c09-ip" }) })
 	C("SetFormValueFunc", "", func(e *env) {
@@ -345,6 +367,12 @@ func init() {
 	R("SetBodyRaw", "", func(r *protocol.Request, e *env) { r.SetBodyRaw([]byte("c09-req-raw")) })
 	R("SetBodyStream", "", func(r *protocol.Request, e *env) { r.SetBodyStream(rd("c09-req-stream"), 14) })
 	R("SetBodyStream", "chunked", func(r *protocol.Request, e *env) { r.SetBodyStream(rd("c09-req-stream"), -1) })
+	R("SetBodyStream", "closeErr", func(r *protocol.Request, e *env) { r.SetBodyStream(rdBadClose("c09-req-stream"), 14) })
+	R("ConstructBodyStream", "closeErr", func(r *protocol.Request, e *env) {
+		b := &bytebufferpool.ByteBuffer{}
+		b.WriteString("c09-cbs") //nolint:errcheck
+		r.ConstructBodyStream(b, rdBadClose("c09-cbs-stream"))
+	})
 	R("SetBodyString", "", func(r *protocol.Request, e *env) { r.SetBodyString("c09-req-string") })
 	R("SetConnectionClose", "", func(r *protocol.Request, e *env) { r.SetConnectionClose() })
 	R("SetCookie", "", func(r *protocol.Request, e *env) { r.SetCookie("c09rc", "v") })
@@ -452,6 +480,14 @@ func init() {
 	P("SetBodyStream", "", func(r *protocol.Response, e *env) { r.SetBodyStream(rd("c09-resp-stream"), 15) })
 	P("SetBodyStream", "chunked", func(r *protocol.Response, e *env) { r.SetBodyStream(rd("c09-resp-stream"), -1) })
 	P("SetBodyStreamNoReset", "", func(r *protocol.Response, e *env) { r.SetBodyStreamNoReset(rd("c09-resp-nr"), 11) })
+	P("SetBodyStream", "closeErr", func(r *protocol.Response, e *env) { r.SetBodyStream(rdBadClose("c09-resp-stream"), 15) })
+	P("SetBodyStream", "closedFile", func(r *protocol.Response, e *env) { r.SetBodyStream(closedFile(e), -1) })
+	P("SetBodyStreamNoReset", "closeErr", func(r *protocol.Response, e *env) { r.SetBodyStreamNoReset(rdBadClose("c09-resp-nr"), 11) })
+	P("ConstructBodyStream", "closeErr", func(r *protocol.Response, e *env) {
+		b := &bytebufferpool.ByteBuffer{}
+		b.WriteString("c09-rcbs") //nolint:errcheck
+		r.ConstructBodyStream(b, rdBadClose("c09-rcbs-stream"))
+	})
 	P("SetBodyString", "", func(r *protocol.Response, e *env) { r.SetBodyString("c09-resp-string") })
 	P("SetConnectionClose", "", func(r *protocol.Response, e *env) { r.SetConnectionClose() })
 	P("SetStatusCode", "", func(r *protocol.Response, e *env) { r.SetStatusCode(299) })
